@@ -17,6 +17,11 @@ def gen_msgs(rng, bid, n=None, big=False):
         k = rng.choice([0, 1, 1, 2, 3, 6])
         pool = [1, 2, 3, 4, 5, 7, 100, 2**32, 2**63, U64] if big else [1, 2, 3, 4, 5, 7, 100]
         rc = rng.sample(pool, min(k, len(pool)))
+        if big and rng.random() < 0.03:
+            # busy channels: hundreds of recipients (sizes around powers of two and beyond)
+            cnt = rng.choice([255, 256, 257, 300, 1023, 1025, 5000])
+            start = rng.choice([1, 2**32, 2**63])
+            rc = list(range(start, start + cnt))
         reply = i + 1 if not big or rng.random() < 0.8 else rng.choice([0, U64, 2**63])
         msgs.append((bid, reply, data, rc))
     return msgs
